@@ -85,7 +85,7 @@ out.append('')
 out.append('Result: silent on all twelve (quick tier), with one exception that was a false alarm of mine and is corrected: b9 blanks the *viewer\'s own* hand evaluation once the viewer has folded, and C15\'s oracle demanded the viewer\'s whole own entry unchanged. The statement keeps "the viewer\'s own cards and all public information"; an evaluation of a folded hand is neither (it is hidden from everybody else even after the close), so the oracle now accepts the viewer\'s own evaluation either unchanged or absent - anything else in the own entry, and an *altered* evaluation, still alarm. All seven seeded C15 changes are still caught after the correction. Silent on the first six (quick tier), also after the later strengthenings of the checks. Two oracles were loosened *because of this experiment\'s reasoning, before it ran*: C01 accepts pots republished between the fixed publication points, C04\'s carried-out-action clause only judges action names of the offer vocabulary; C14 accepts hole cards handed out before the first street.')
 out.append('')
 out.append('### 10.4 Silence on the unchanged tree\n')
-out.append('On the final tree (after fix F10 and the strengthenings of rounds 6 and 7): quick tier at `VERIF_SEED` 1..5 for all 20 properties (100 runs, machine busy with other runs): 100 x OK; thorough tier at seed 1: 20 x OK (1-21 min each; C15 is the longest since every state is shown to n + 4 viewers). Earlier in the session: seeds 1..7 (140 runs) OK. All twelve benign patches: 80 check runs, all silent. `vp check` (fresh copy of the sandbox, `setup_cmd`, every quick command): nothing needed attention. After the strengthenings of rounds 9 and 10 (C07 stack mix, C13 structures without a big blind, C18 racing leaves, C19 outstanding demand, C20 quiet stretches / progress oracle / large fields, seat histories with quiet stretches): all 20 quick checks at seed 1 OK, the changed checks (C07 C08 C09 C13 C17 C18 C19 C20) also at seeds 2 and 3, C20 thorough (4 M histories) OK, benign regulator patches b5 and b11 silent under C09 / C19 / C20; `vp check` on the round-9 tree: nothing needed attention.')
+out.append('On the final tree (after fix F10 and the strengthenings of rounds 6 and 7): quick tier at `VERIF_SEED` 1..5 for all 20 properties (100 runs, machine busy with other runs): 100 x OK; thorough tier at seed 1: 20 x OK (1-21 min each; C15 is the longest since every state is shown to n + 4 viewers). Earlier in the session: seeds 1..7 (140 runs) OK. All twelve benign patches: 80 check runs, all silent. `vp check` (fresh copy of the sandbox, `setup_cmd`, every quick command): nothing needed attention. After the strengthenings of rounds 9 and 10 (C07 stack mix, C13 structures without a big blind, C18 racing leaves, C19 outstanding demand, C20 quiet stretches / progress oracle / large fields, seat histories with quiet stretches): all 20 quick checks at seed 1 OK, the changed checks (C07 C08 C09 C13 C17 C18 C19 C20) also at seeds 2 and 3, thorough tier of C18 (150 k race cases, a third with racing leaves), C19 and C20 (4 M histories each, 5-6 min) OK on the final checks, benign regulator patches b5 and b11 silent under C09 / C19 / C20; `vp check` on the round-9 tree: nothing needed attention.')
 # ---- 10.5 systematic mutation
 import subprocess, os
 if os.path.exists('/verif/tools/mutation/results.json'):
